@@ -5,6 +5,7 @@ import Matreex.Model.Mul
 import Matreex.Props.C05
 import Matreex.Props.C08
 import Matreex.Lemmas.Mul
+import Matreex.Lemmas.BridgeT10
 
 namespace Matreex.C11
 open Matreex
@@ -185,5 +186,21 @@ def b21 : Matrix T := ⟨.rowMajor, ⟨2, 1⟩, #[.var 2, .var 3]⟩           -
 example : a12.Coh ∧ b21.Coh ∧ a12.ncols = b21.nrows := ⟨⟨rfl⟩, ⟨rfl⟩, rfl⟩
 example : (a12.multiply false false 8 b21 T.mul T.add T.dflt).map (·.map (fun c => (c.order, c.data.toList))) =
     .ok (.ok (.colMajor, [T.add (T.mul (.var 0) (.var 2)) (T.mul (.var 1) (.var 3))])) := by rfl
+
+
+/-- the products the theorems of this file are about ARE the source's functions: `multiply`
+(`src/arithmetic/mul.rs`), `multiplication_like_operation`, `get_nth_major_axis_vector` and the
+conformability guard (`src/arithmetic.rs`) and `dot_product`, regenerated on every run
+(`Gen/T10Gen.lean`, translator T10 — the position of every `?`, every condition, receiver and
+argument, operand order of `*` and `+`, loop bounds and nesting, the `match` on the order, the
+early return for a zero inner dimension, which element type each capacity check measures) equal
+the model's functions, `Error` results and faults included, with no hypothesis -/
+theorem products_are_the_source (zstL zstR : Bool) (esL esR esOut : Nat) (a : Matrix L) (b : Matrix R)
+    (mul : L → R → U) (add : U → U → U) (op : List L → List R → U) (dflt : U) :
+    Gen.Matrix.multiply zstL zstR esL esR esOut a b mul add dflt = a.multiply zstL zstR esOut b mul add dflt ∧
+    Gen.Matrix.multiplication_like_operation zstL zstR esL esR esOut a b op dflt =
+      a.multiplicationLike zstL zstR esOut b op dflt :=
+  ⟨BridgeT10.multiply_is_the_source zstL zstR esL esR esOut a b mul add dflt,
+   BridgeT10.multiplication_like_is_the_source zstL zstR esL esR esOut a b op dflt⟩
 
 end Matreex.C11
